@@ -292,6 +292,9 @@ func compareOutcomes(c *vk.Ctx, api string, pA, pB *sem.Prepared, rcX *ref.Case,
 
 func compareLists(c *vk.Ctx, api string, pA, pB *sem.Prepared, rcX *ref.Case, C []*openfgav1.TupleKey, obj, rel, subj string, want []string, la, lb drive.ListOutcome, mode drive.Mode) {
 	c.Count("compared_"+strings.SplitN(api, "/", 2)[0], 1)
+	if sem.Hung(c, api, la, lb) {
+		return
+	}
 	if (la.Err != nil) != (lb.Err != nil) {
 		if rcX.AnyUnevaluable() {
 			return
